@@ -6,8 +6,8 @@ ROOT = os.path.dirname(os.path.dirname(os.path.dirname(os.path.abspath(__file__)
 sys.path.insert(0, ROOT)
 from vlib import tlc
 
-def B(defs, rest, npos, named, ps="none", ns="none", ctx="mixin"):
-    return {"kind": "bind", "ctx": ctx, "defs": defs, "rest": rest, "npos": npos, "named": named, "psplat": ps, "nsplat": ns}
+def B(defs, rest, npos, named, ps="none", mnamed=(), ctx="mixin"):
+    return {"kind": "bind", "ctx": ctx, "defs": defs, "rest": rest, "npos": npos, "named": named, "mnamed": list(mnamed), "psplat": ps}
 
 def ev(inp, k, ps, rest, kw, case, devs=()):
     return {"t": "bind", "inp": inp, "obs": {"k": k, "ps": ps, "rest": rest, "kw": kw}, "case": case, "devs": list(devs)}
@@ -27,13 +27,20 @@ def run():
             {"op": "close", "var": "-", "arg": "-"}]
     e5 = {"t": "scope", "prog": prog, "obs": {"k": "ok", "reads": [11]}, "case": 5, "devs": []}
     e6 = ev(B(["req"], 1, 1, ["a"]), "ok", [11], [], [{"n": "a", "v": 21}], 6, devs=["rest_takes_dup_named"])   # listed deviation
-    good = [e0, e1, e2, e3, e4, e5, e6]
+    # m($b-x: $c, $c: 33) called with ($c: 23): the default of b-x sees the definition-site $c (43), not the argument
+    e7 = ev(B(["req", "next", "const"], 0, 1, ["c"]), "ok", [11, 43, 23], [], [], 7)
+    # f($a: 21, (a: 61, z: 69)...) with a rest parameter: a is passed once (either value), keywords = (z: 69)
+    e8 = ev(B(["req"], 1, 0, ["a"], mnamed=["a", "z"]), "ok", [21], [], [{"n": "z", "v": 69}], 8)
+    good = [e0, e1, e2, e3, e4, e5, e6, e7, e8]
     bad = [json.loads(json.dumps(e)) for e in good]
     bad[2]["obs"]["ps"] = [41]                                                                   # caller's $g
     bad2 = [json.loads(json.dumps(e)) for e in good]
     bad2[5]["obs"]["reads"] = [13]                                                               # dynamic scoping
+    bad3 = [json.loads(json.dumps(e)) for e in good]
+    bad3[7]["obs"]["ps"] = [11, 23, 23]                                                          # named arguments bound before defaults
+    bad3[8]["obs"]["kw"] = [{"n": "a", "v": 61}, {"n": "z", "v": 69}]                            # the overlapping name passed twice
     res = []
-    for name, evs in (("good", good), ("bad", bad), ("bad2", bad2)):
+    for name, evs in (("good", good), ("bad", bad), ("bad2", bad2), ("bad3", bad3)):
         p = os.path.join(work, name + ".ndjson")
         with open(p, "w") as f:
             for e in evs:
@@ -41,4 +48,5 @@ def run():
         r = tlc.validate_trace("Trace_Bind", "Trace_Bind.cfg", p, work, timeout=120)
         res.append((r["accepted"], r["unmatched"], any('"KNOWN", "rest_takes_dup_named"' in m for m in r["msgs"])))
     import shutil; shutil.rmtree(work, ignore_errors=True)
-    return res[0] == (True, None, True) and res[1][:2] == (False, 3) and res[2][:2] == (False, 6)
+    return (res[0] == (True, None, True) and res[1][:2] == (False, 3) and res[2][:2] == (False, 6)
+            and res[3][:2] == (False, 8))
